@@ -28,8 +28,81 @@ sys.path.insert(0, os.path.dirname(HERE))
 from sa import project as P  # noqa: E402
 
 
+class _FlipCompare(ast.NodeTransformer):
+    """a <= b  ->  b >= a   (single-operator comparisons of the ordering kind)"""
+    FLIP = {ast.Lt: ast.Gt, ast.LtE: ast.GtE, ast.Gt: ast.Lt, ast.GtE: ast.LtE}
+
+    def visit_Compare(self, node):
+        self.generic_visit(node)
+        if len(node.ops) == 1 and type(node.ops[0]) in self.FLIP:
+            return ast.copy_location(ast.Compare(left=node.comparators[0], ops=[self.FLIP[type(node.ops[0])]()],
+                                                 comparators=[node.left]), node)
+        return node
+
+
+class _RenameLocals(ast.NodeTransformer):
+    """rename the plain local variables of every function (not parameters, not names also used by a nested scope)"""
+
+    def visit_FunctionDef(self, node):
+        self.generic_visit(node)
+        params = {a.arg for a in node.args.posonlyargs + node.args.args + node.args.kwonlyargs}
+        if node.args.vararg:
+            params.add(node.args.vararg.arg)
+        if node.args.kwarg:
+            params.add(node.args.kwarg.arg)
+        nested = set()
+        for sub in ast.walk(node):
+            if sub is not node and isinstance(sub, (ast.FunctionDef, ast.Lambda, ast.ListComp, ast.SetComp, ast.DictComp, ast.GeneratorExp, ast.ClassDef)):
+                for n in ast.walk(sub):
+                    if isinstance(n, ast.Name):
+                        nested.add(n.id)
+                    if isinstance(n, ast.arg):
+                        nested.add(n.arg)
+        stored = set()
+        glob = set()
+        for n in ast.walk(node):
+            if isinstance(n, ast.Name) and isinstance(n.ctx, ast.Store):
+                stored.add(n.id)
+            if isinstance(n, (ast.Global, ast.Nonlocal)):
+                glob |= set(n.names)
+        rename = {x for x in stored if x not in params and x not in nested and x not in glob and not x.startswith("__")}
+        if not rename:
+            return node
+        for n in ast.walk(node):
+            if isinstance(n, ast.Name) and n.id in rename:
+                n.id = n.id + "_rn"
+        return node
+
+
+GLOBAL_TRANSFORMS = {
+    "unparse": lambda tree: tree,
+    "flip-comparisons": lambda tree: _FlipCompare().visit(tree),
+    "rename-locals": lambda tree: _RenameLocals().visit(tree),
+}
+
+
+def apply_global(root: str, name: str) -> Optional[str]:
+    pkg = os.path.join(root, "processscheduler")
+    for fn in sorted(os.listdir(pkg)):
+        if not fn.endswith(".py"):
+            continue
+        path = os.path.join(pkg, fn)
+        src = open(path, encoding="utf-8").read()
+        tree = GLOBAL_TRANSFORMS[name](ast.parse(src))
+        ast.fix_missing_locations(tree)
+        out = ast.unparse(tree)
+        try:
+            ast.parse(out)
+        except SyntaxError as ex:
+            return f"transformed module does not parse: {ex}"
+        open(path, "w", encoding="utf-8").write(out + "\n")
+    return None
+
+
 def apply_edit(root: str, m: dict) -> Optional[str]:
     """returns None when applied, else the reason it could not be"""
+    if m.get("global"):
+        return apply_global(root, m["global"])
     edits = m.get("edits") or [m]
     for e in edits:
         path = os.path.join(root, "processscheduler", e["file"])
